@@ -66,7 +66,14 @@ fn nav(c: &mut Cur) -> Vec<Nav> {
     let n = c.below(4);
     (0..n)
         .map(|_| match c.below(8) {
-            0 => Nav::At(pref(c)),
+            0 => {
+                if c.u8() & 1 == 0 {
+                    Nav::At(pref(c))
+                } else {
+                    let p = pref(c);
+                    Nav::AtCut(p, c.u8())
+                }
+            }
             1 | 2 => Nav::Find(pref(c)),
             3 => Nav::FindExact(pref(c)),
             4 => Nav::FindLpm(pref(c)),
